@@ -336,10 +336,12 @@ func heldAtInstr(fn *ssa.Function, gg *guardedGlobal, at ssa.Instruction) bool {
 	step := func(s lockState, ins ssa.Instruction) lockState {
 		if op, isDefer := lockOp(ins, gg); op != "" {
 			switch {
-			case op == "lock" && !isDefer:
+			case (op == "lock" || op == "rlock") && !isDefer:
 				s.held = true
+				s.shared = op == "rlock"
 			case op == "unlock" && !isDefer:
 				s.held = false
+				s.shared = false
 			case op == "unlock" && isDefer:
 				s.deferred = true
 			}
@@ -364,7 +366,7 @@ func heldAtInstr(fn *ssa.Function, gg *guardedGlobal, at ssa.Instruction) bool {
 				work = append(work, su)
 				continue
 			}
-			n := lockState{held: cur.held && s.held, deferred: cur.deferred && s.deferred}
+			n := lockState{held: cur.held && s.held, deferred: cur.deferred && s.deferred, shared: cur.shared || s.shared}
 			if n != *cur {
 				*cur = n
 				work = append(work, su)
@@ -378,7 +380,7 @@ func heldAtInstr(fn *ssa.Function, gg *guardedGlobal, at ssa.Instruction) bool {
 	s := *st
 	for _, ins := range at.Block().Instrs {
 		if ins == at {
-			return s.held
+			return s.held && !(s.shared && isWriteAccess(at))
 		}
 		s = step(s, ins)
 	}
